@@ -175,12 +175,15 @@ type vfPart struct {
 	Inconclusive []string            `json:"inconclusive"`
 	LogErrors    []string            `json:"log_errors"`
 	Harness      []string            `json:"harness_errors"`
+	KnownSeen    map[string]int `json:"known_seen"` // open known findings: signature -> occurrences
 	distinctSeen map[string]map[uint64]bool
 	mu           sync.Mutex
+	known        []vfKnownFinding
+	unknownViol  int
 }
 
 func vfNewPart() *vfPart {
-	return &vfPart{Counters: map[string]int64{}, Distinct: map[string][]uint64{}, distinctSeen: map[string]map[uint64]bool{}}
+	return &vfPart{Counters: map[string]int64{}, Distinct: map[string][]uint64{}, distinctSeen: map[string]map[uint64]bool{}, KnownSeen: map[string]int{}}
 }
 
 func (p *vfPart) Add(name string, n int64) {
@@ -217,7 +220,15 @@ func (p *vfPart) Sample(max int, s interface{}) {
 }
 func (p *vfPart) Violate(v vfViolation) {
 	p.mu.Lock()
-	p.Violations = append(p.Violations, v)
+	if k := vfKnownOpen(p.known, v.Prop, v.Sig); k != nil {
+		p.KnownSeen[v.Sig]++
+		if p.KnownSeen[v.Sig] <= 2 {
+			p.Violations = append(p.Violations, v) // keep a couple of witnesses
+		}
+	} else {
+		p.unknownViol++
+		p.Violations = append(p.Violations, v)
+	}
 	p.mu.Unlock()
 }
 func (p *vfPart) Merge(o *vfPart) {
@@ -242,6 +253,9 @@ func (p *vfPart) Merge(o *vfPart) {
 		}
 	}
 	p.Violations = append(p.Violations, o.Violations...)
+	for k, v := range o.KnownSeen {
+		p.KnownSeen[k] += v
+	}
 	p.Inconclusive = append(p.Inconclusive, o.Inconclusive...)
 	p.LogErrors = append(p.LogErrors, o.LogErrors...)
 	p.Harness = append(p.Harness, o.Harness...)
@@ -355,9 +369,14 @@ func vfFinish(t *testing.T, env *vfEnv, spec *vfSpec, part *vfPart, start time.T
 	realViol := 0
 	seenKnown := map[string]int{}
 	var firstReplay []string
+	for sig, n := range part.KnownSeen {
+		seenKnown[sig] = n
+	}
 	for _, v := range part.Violations {
 		if k := vfKnownOpen(known, v.Prop, v.Sig); k != nil {
-			seenKnown[k.Signature]++
+			if part.KnownSeen[k.Signature] == 0 {
+				seenKnown[k.Signature]++
+			}
 			continue
 		}
 		realViol++
@@ -443,6 +462,7 @@ func vfRunSharded(t *testing.T, env *vfEnv, testName string, n int, shards int, 
 	if env.Replay != "" {
 		// replay mode: run only the named case, in-process
 		part := vfNewPart()
+		part.known = vfLoadKnown(env)
 		var doc struct {
 			Case int `json:"case"`
 		}
@@ -458,6 +478,7 @@ func vfRunSharded(t *testing.T, env *vfEnv, testName string, n int, shards int, 
 	}
 	if env.Shard >= 0 {
 		part := vfNewPart()
+		part.known = vfLoadKnown(env)
 		prog := env.PartFile + ".progress"
 		for i := env.Shard; i < n; i += env.Shards {
 			_ = os.WriteFile(prog, []byte(strconv.Itoa(i)), 0644)
@@ -466,7 +487,7 @@ func vfRunSharded(t *testing.T, env *vfEnv, testName string, n int, shards int, 
 				break // state may be corrupt after a recovered panic: stop this shard
 			}
 			part.Cases++
-			if len(part.Violations) >= 20 {
+			if part.unknownViol >= 20 {
 				break
 			}
 		}
@@ -607,7 +628,12 @@ func vfTopFrames(out string) []string {
 		if i+1 < len(lines) {
 			file = strings.TrimSpace(lines[i+1])
 		}
-		if strings.HasPrefix(fn, "runtime.") || strings.HasPrefix(fn, "runtime/debug.") || strings.HasPrefix(fn, "panic(") || strings.HasPrefix(fn, "testing.") {
+		if strings.HasPrefix(l, "panic(") {
+			// everything above is the deferred recover machinery
+			frames = frames[:0]
+			continue
+		}
+		if strings.HasPrefix(fn, "runtime.") || strings.HasPrefix(fn, "runtime/debug.") || strings.HasPrefix(fn, "testing.") {
 			continue
 		}
 		frames = append(frames, fn+" @ "+file)
